@@ -269,6 +269,10 @@ def later_blocks(case, dm, exp, df, acc):
     n = len(df)
     h = n // 2
     grp = dm.group
+    for t in grp.terms.values():  # the lists of levels handed out belong to the caller: reordering them changes nothing below
+        lv_out = getattr(t.factor, "levels", None)
+        if isinstance(lv_out, list) and len(lv_out) > 1:
+            lv_out.reverse()
     for step, idx in enumerate((list(range(h)), list(range(n - h, n)), list(range(h))[::-1])):
         cur = df.iloc[idx].reset_index(drop=True)
         acc.calls += 1
